@@ -29,6 +29,7 @@ from twisted.python import failure
 from sim import refcodec as rc
 
 EPS = 1e-6
+HORIZON = 1.0e9
 
 
 # --------------------------------------------------------------------- reactor
@@ -654,6 +655,12 @@ class World(object):
         if op.startswith("app."):
             return self._run_app_step(st)
         addr = st.get("addr", "A")
+        if op == "sim.set_id":
+            # declared harness-side state placement (C17's own quantifier): the public
+            # attribute MQTTFactory.id is placed shortly before the 16-bit wrap
+            self.factory.id = st["value"]
+            self.count("id_counter_placed")
+            return
         if op == "time.fire":
             order = self.reactor.due_order()
             if not order:
@@ -662,7 +669,8 @@ class World(object):
             ties = [c for c in order if c.getTime() - t0 <= EPS] if t0 > self.now else \
                    [c for c in order if c.getTime() <= self.now + EPS]
             limit = st.get("max_t")
-            if limit is not None and t0 > limit:
+            if (limit is not None and t0 > limit) or t0 > HORIZON:
+                # beyond ~30 virtual years float time loses sub-second precision
                 raise StepSkipped("beyond horizon")
             k = st.get("tie", 0) % len(ties)
             if len(ties) > 1:
@@ -672,7 +680,7 @@ class World(object):
             return self._fire(ties[k])
         if op == "time.advance":
             dt = st["dt"]
-            target = self.now + dt
+            target = min(self.now + dt, HORIZON)
             guard = 0
             while True:
                 order = self.reactor.due_order()
@@ -688,6 +696,8 @@ class World(object):
                 self.reactor.rightNow = target
             return
         if op == "net.stall":
+            if self.now + st["dt"] > HORIZON:
+                raise StepSkipped("beyond horizon")
             self.reactor.rightNow += st["dt"]
             self.stalled = True
             self.count("stall")
